@@ -42,7 +42,7 @@ ASSUMPTIONS = [
     "with a filter installed only positive-duration instances are used (the filtered clock is then defined, see C06)",
     "list-valued queries are compared as multisets of operation identities plus 'no duplicates'",
 ]
-REQUIRED_COUNTERS = {"query_answers_checked": 2000, "states": 200, "pair_orders_checked": 100,
+REQUIRED_COUNTERS = {"mirror_created_mid_history": 20, "query_answers_checked": 2000, "states": 200, "pair_orders_checked": 100,
                      "checked_uncompleted_operations": 20, "checked_ongoing_operations": 20,
                      "resets_inside_history": 5}
 WORKERS = {"quick": 1, "thorough": 14}
@@ -68,6 +68,8 @@ def gen_cases(ctx):
             filters=filt)
         c["kind"] = "history"
         c["resets"] = rng.random() < 0.25
+        # the unscheduled-operations observer may also be created in the middle of a history
+        c["mirror_after"] = rng.choice([0, 0, 1, 2, 3, rng.randint(1, 10)])
         yield c
     for i in range(ctx.scale(50, 1500)):
         inst = gen.gen_instance(rng, rng.choice(gen.INSTANCE_CLASSES), max_jobs=3,
@@ -148,6 +150,9 @@ def check_query(ctx, run: Run, mirror, q, rng, trace):
                 or so.machine_id != r.machine_of[so.operation.operation_id] for so in got):
             bad("multiset", gi, want)
     elif q == "mirror":
+        if mirror is None:
+            trace.append(q)
+            return
         got = [o.operation_id for o in mirror.unscheduled_operations]
         per_job = [[o.operation_id for o in dq] for dq in mirror.unscheduled_operations_per_job]
         want_per_job = [ids[n:] for ids, n in zip(r.job_ops, r.job_next)]
@@ -241,7 +246,8 @@ def run_case(ctx, case):
     rng = random.Random(case["seed"])
     if case["kind"] == "history":
         run = Run(case["instance"], case.get("filter"))
-        mirror = UnscheduledOperationsObserver(run.d)
+        mirror_after = case.get("mirror_after", 0)
+        mirror = UnscheduledOperationsObserver(run.d) if mirror_after == 0 else None
         nontrivial = False
         traces = []
         steps = 0
@@ -262,6 +268,10 @@ def run_case(ctx, case):
             o, m = run.choose(rng, pol if pol != "mixed" else rng.choice(gen.POLICIES))
             run.dispatch(o, m)
             steps += 1
+            if mirror is None and len(run.r.history) >= mirror_after:
+                mirror = UnscheduledOperationsObserver(run.d)
+                ctx.count("mirror_created_mid_history")
+                check_query(ctx, run, mirror, "mirror", rng, ["<created mid-history>"])
             # immediately after dispatch: one targeted query (stale cache)
             check_query(ctx, run, mirror, rng.choice(ZERO_ARG), rng, ["<dispatch>"])
         ctx.count("states")
